@@ -416,7 +416,7 @@ void vfps::ProgramOptions::save(std::string fname)
         ){
             continue;
         } else
-        if (it->first == "alpha0" && std::fpclassify(f_s) == FP_ZERO) {
+        if (it->first == "alpha0" && std::fpclassify(f_s) != FP_ZERO) {
             ofs << "alpha0=0" << std::endl;
             continue;
         } else
@@ -445,6 +445,12 @@ void vfps::ProgramOptions::save(std::string fname)
                 ofs << it->first << '='
                     << _vm[it->first].as<bool>()
                     << std::endl;
+            } else if (it->second.value().type()
+                       == typeid(std::vector<integral_t>)) {
+                // one line per value (a config file accumulates repeated keys)
+                for (auto v : _vm[it->first].as<std::vector<integral_t>>()) {
+                    ofs << it->first << '=' << v << std::endl;
+                }
             } else {
                 std::string val;
                 try {
